@@ -36,6 +36,9 @@ type Behaviour struct {
 	// ContentLength: what the answer's Content-Length header announces (0 = nothing announced). Nothing makes the
 	// origin send that many bytes.
 	ContentLength int64
+	// Redirect: answer with this status (307, 308, 301 ...) and a Location header naming RedirectTo
+	Redirect   int
+	RedirectTo string
 }
 
 // Net is the scripted origin: URL -> behaviour. Installed as http.DefaultTransport.
@@ -96,6 +99,9 @@ func (n *Net) RoundTrip(req *http.Request) (*http.Response, error) {
 	if err != nil {
 		return nil, err
 	}
+	if b.Redirect != 0 {
+		status, out = b.Redirect, []byte("<html>moved</html>")
+	}
 	if status == 0 {
 		status = 200
 	}
@@ -107,11 +113,19 @@ func (n *Net) RoundTrip(req *http.Request) (*http.Response, error) {
 		Status:     fmt.Sprintf("%d scripted", status),
 		StatusCode: status,
 		Proto:      "HTTP/1.1", ProtoMajor: 1, ProtoMinor: 1,
-		Header:        n.headers(),
+		Header:        n.headersFor(b),
 		Body:          rc,
 		ContentLength: announced(b),
 		Request:       req,
 	}, nil
+}
+
+func (n *Net) headersFor(b *Behaviour) http.Header {
+	h := n.headers()
+	if b.Redirect != 0 {
+		h.Set("Location", b.RedirectTo)
+	}
+	return h
 }
 
 func announced(b *Behaviour) int64 {
